@@ -91,6 +91,9 @@ func (e *Explorer) Step(w *World, ev Event) (*World, Outcome) {
 			e.RC.Count("tag_"+ev.Tag+"_"+out.Kind, 1)
 		}
 	}
+	if out.Pan && out.Kind == "tx-rej" {
+		e.RC.Distinct("recovered_tx_panics", evClass(&ev)+": "+NormErr(out.Err))
+	}
 	for i, m := range e.Monitors {
 		m.Post(e, w, n, pres[i], &ev, out)
 	}
